@@ -1,7 +1,7 @@
 import json
 claimed = {
  'C18': ('exploration', 'Each sampled -j 1 configuration is executed in 4 fresh interpreters with different PYTHONHASHSEED and in each twice under different scheduler seeds, personalities, virtual pid bases, command latencies, look-ahead capacities and line-level pre-emption (single worker, feeder thread and main still interleave); oracle: identical chain of adopted inputs, byte-identical output, identical status.', '4 (C18)', 'differential deterministic simulation across hash seeds, schedules and timings'),
- 'C14': ('exploration', 'Trace monitor over whole simulated runs of the real CLI under swarm-random ordered option sequences and inputs with/without declarations of each theory: the mutator classes actually consulted are compared with a reference model of option processing and theory detection. The property has no schedule or fault in it (said plainly in DESIGN.md); the simulator contributes the whole-run trace across feeder thread and workers. Every third case is systematic (all single options, then ordered pairs). Known gap: a mutator that is scheduled in ddmin's first round but dropped from later rounds is not detected (DESIGN 14, S98).', '4 (C14)', 'whole-run trace monitor under the simulator + reference model of option processing'),
+ 'C14': ('exploration', 'Trace monitor over whole simulated runs of the real CLI under swarm-random ordered option sequences and inputs with/without declarations of each theory: the mutator classes actually consulted are compared with a reference model of option processing and theory detection. The property has no schedule or fault in it (said plainly in DESIGN.md); the simulator contributes the whole-run trace across feeder thread and workers. Every third case is systematic (all single options, then ordered pairs). Known gap: a mutator that is scheduled in the first round of ddmin but dropped from later rounds is not detected (DESIGN 14, S98).', '4 (C14)', 'whole-run trace monitor under the simulator + reference model of option processing'),
  'C13': ('exploration', 'Seeded search over whole runs steered towards sharing-producing simplifications (histories of accepted steps of length >= 2); invariant checked at every construction of a new round and around every reduplicate call: node identities pairwise distinct, tokens unchanged, unique nodes keep their identity. The shared node-id counter is a seam (simulated shared value and lock, pre-emption at drawn accesses).', '4 (C13), 11, 14', 'whole-system deterministic simulation + state invariant at round boundaries'),
  'C10': ('exploration', 'Seeded search with command faults (hang, CPU spin, allocation blow-up, signal death, golden run exceeding the limit, match string absent) placed on pseudo-random candidates, on a simulated clock with simulated kernel limits; oracle: verdicts under the reference rule, kill-before-continue, no process left, no stall (deadlock detection), limits as documented, bounded simulated run time, status 1 before any candidate when the golden output lacks the match string.', '4 (C10)', 'deterministic simulation on a virtual clock with command-fault injection + deadlock detection'),
  'C04': ('exploration', 'Seeded search with fault injection over whole runs on well-formed, damaged (also nested deeper than the recursion limit) and unbalanced inputs through both launchers: usage errors, injected mutator exceptions (buggify), OSError on candidate files, SIGINT and MemoryError at main yield points; oracle: nothing but SystemExit leaves the launcher, exit status 0 iff completion, one-line diagnostics, and with a failing mutator M (injected at a drawn call site, or raising by itself on ill-formed input) the result still is a fixed point of all other enabled mutators.', '4 (C04)', 'deterministic simulation with fault injection (mutator exceptions, I/O errors, interrupts, usage errors) + exit-status and isolation oracles'),
